@@ -17,13 +17,21 @@ pub struct FaultWriter {
     inner: EndianVec<RunTimeEndian>,
     fail_at: i64,
     count: std::rc::Rc<Cell<i64>>,
+    sim: Option<std::rc::Rc<crate::fault::SimState>>,
 }
 
 impl FaultWriter {
     pub fn new(endian: RunTimeEndian, fail_at: i64) -> Self {
-        FaultWriter { inner: EndianVec::new(endian), fail_at, count: std::rc::Rc::new(Cell::new(0)) }
+        FaultWriter { inner: EndianVec::new(endian), fail_at, count: std::rc::Rc::new(Cell::new(0)), sim: None }
+    }
+    /// A sink that also runs the simulator's stack-depth probe on every write.
+    pub fn probed(endian: RunTimeEndian, fail_at: i64, sim: &std::rc::Rc<crate::fault::SimState>) -> Self {
+        FaultWriter { sim: Some(sim.clone()), ..FaultWriter::new(endian, fail_at) }
     }
     fn gate(&self) -> write::Result<()> {
+        if let Some(sim) = &self.sim {
+            sim.probe_stack();
+        }
         let n = self.count.get();
         self.count.set(n + 1);
         if self.fail_at >= 0 && n >= self.fail_at {
@@ -138,7 +146,7 @@ pub fn convert<'a, R: Reader<Offset = usize> + 'a>(mk: &dyn Fn(&'a [u8]) -> R, c
         Ok(mut w) => {
             ctx.item();
             ev!(ctx, "converted units={}", w.units.count());
-            let mut sections = Sections::new(FaultWriter::new(endian, write_fail_at));
+            let mut sections = Sections::new(FaultWriter::probed(endian, write_fail_at, &ctx.sim));
             ctx.enter_with_budget("write.Dwarf.write", budget);
             match w.write(&mut sections) {
                 Ok(()) => {
@@ -178,7 +186,7 @@ pub fn convert<'a, R: Reader<Offset = usize> + 'a>(mk: &dyn Fn(&'a [u8]) -> R, c
             unit.convert(root, &convert_address)?;
             units += 1;
         }
-        let mut sections = Sections::new(FaultWriter::new(endian, write_fail_at));
+        let mut sections = Sections::new(FaultWriter::probed(endian, write_fail_at, &ctx.sim));
         out.write(&mut sections).map_err(write::ConvertError::Write)?;
         Ok(units)
     })();
@@ -203,7 +211,7 @@ pub fn convert<'a, R: Reader<Offset = usize> + 'a>(mk: &dyn Fn(&'a [u8]) -> R, c
     ctx.enter_with_budget("write.ConvertUnit.stepwise", budget);
     let stepwise = (|| -> write::ConvertResult<(usize, usize)> {
         let mut out = write::Dwarf::new();
-        let mut sections = Sections::new(FaultWriter::new(endian, write_fail_at));
+        let mut sections = Sections::new(FaultWriter::probed(endian, write_fail_at, &ctx.sim));
         let (mut units, mut splits) = (0usize, 0usize);
         {
             let mut conv = out.convert(&dwarf)?;
@@ -318,7 +326,7 @@ pub fn convert<'a, R: Reader<Offset = usize> + 'a>(mk: &dyn Fn(&'a [u8]) -> R, c
         Ok(t) => {
             ctx.item();
             ev!(ctx, "frame_table cies={} fdes={}", t.cie_count(), t.fde_count());
-            let mut out = write::EhFrame(FaultWriter::new(endian, write_fail_at));
+            let mut out = write::EhFrame(FaultWriter::probed(endian, write_fail_at, &ctx.sim));
             ctx.enter_with_budget("write.FrameTable.write_eh_frame", budget);
             match t.write_eh_frame(&mut out) {
                 Ok(()) => ctx.item(),
@@ -327,7 +335,7 @@ pub fn convert<'a, R: Reader<Offset = usize> + 'a>(mk: &dyn Fn(&'a [u8]) -> R, c
                     ev!(ctx, "write error {:?}", e);
                 }
             }
-            let mut out = write::DebugFrame(FaultWriter::new(endian, write_fail_at));
+            let mut out = write::DebugFrame(FaultWriter::probed(endian, write_fail_at, &ctx.sim));
             ctx.enter_with_budget("write.FrameTable.write_debug_frame", budget);
             match t.write_debug_frame(&mut out) {
                 Ok(()) => ctx.item(),
@@ -349,7 +357,7 @@ pub fn convert<'a, R: Reader<Offset = usize> + 'a>(mk: &dyn Fn(&'a [u8]) -> R, c
         Ok(t) => {
             ctx.item();
             ev!(ctx, "frame_table cies={} fdes={}", t.cie_count(), t.fde_count());
-            let mut out = write::DebugFrame(FaultWriter::new(endian, write_fail_at));
+            let mut out = write::DebugFrame(FaultWriter::probed(endian, write_fail_at, &ctx.sim));
             ctx.enter_with_budget("write.FrameTable.write_debug_frame", budget);
             match t.write_debug_frame(&mut out) {
                 Ok(()) => ctx.item(),
